@@ -2,6 +2,7 @@
 import quantile_rules as Q
 import cowrite
 import generic_lints
+import hazard_lints
 import predicates
 import triggers
 
@@ -16,6 +17,7 @@ def run(facts, tier):
         ("couplings", lambda fa: cowrite.obligations(fa, ['density_sketch']), 2, "fields that every mutator updates together (counters, extremes, cached values) are still updated together"),
         ("emptiness predicate support", lambda fa: predicates.obligations(fa, ['density_sketch']), 1, "the emptiness predicate still consults every field it depended on in the reviewed tree (spec/predicates.json)"),
         ("tautologies", lambda fa: generic_lints.tautologies(fa, ('density/',)), 2, "no comparison / assignment / min-max with two identical operands, no if-else with identical arms"),
+        ("hazards", lambda fa: hazard_lints.hazards(fa, ('density/',)), 2, "no 64-bit value silently narrowed at a call of a library function, no numeric_limits<floating>::min() as a lowest value, no random engine constructed inside a loop, no read of a moved-from parameter, no unguarded unsigned `x - c` loop bound (reviewed instances in spec/hazards.json)"),
         ("duplicate operands", lambda fa: generic_lints.duplicate_conjuncts(fa, ('density/',)), 2, "no logical chain tests the same operand twice (copy-paste of the wrong peer)"),
         ("state-writing shortcuts", lambda fa: generic_lints.state_writing_shortcuts(fa, ['density_sketch']), 1, "no merge / update branch writes fields and returns early past the steps all other paths run (compaction loop, totals, cached counts); one reviewed exception"),
         ("post-increment", lambda fa: generic_lints.post_increment_semantics(fa, ('density/',)), 1, "it++ copies *this, advances once and returns the copy by value"),
